@@ -1234,6 +1234,15 @@ func (v *visitor) visitStringLiteral(ctx fql.IStringLiteralContext) (core.Expres
 
 				switch c {
 				case "\\":
+					if i == stop {
+						// a backslash that is the last character of the literal
+						// (possible in `...` and ´...´) escapes nothing; reading
+						// on would take the closing quote into the value
+						b.WriteString(c)
+
+						continue
+					}
+
 					c2 := input.GetText(i, i+1)
 
 					switch c2 {
